@@ -62,13 +62,14 @@ func isContinueOnly(list []ast.Stmt) bool {
 // ---- Server.disconnectClient ------------------------------------------------------------------
 //
 // takeoverDisconnectSeq, codes = Model.Takeover.DcOp.code, in source order:
-//   1 svr.mu.Lock()            2 svr.mu.Unlock() (a statement)      3 defer svr.mu.Unlock()
-//   inside `for _, s := range svr.svcs`:
-//   4 select { case <-s.stopped: continue; default: }   (drop the entries whose teardown has FINISHED)
-//   5 if <anything else> { continue }                   (drop by another test, e.g. the closed flag)
-//   6 svr.svcs[n] = s (with n++)                        7 if s.sess != nil && s.sess.ID() == cid { same = append(same, s) }
-//   8 svr.svcs = svr.svcs[:n]
-//   inside `for _, s := range same`:   9 s.stop()   10 <-s.stopped
+//
+//	1 svr.mu.Lock()            2 svr.mu.Unlock() (a statement)      3 defer svr.mu.Unlock()
+//	inside `for _, s := range svr.svcs`:
+//	4 select { case <-s.stopped: continue; default: }   (drop the entries whose teardown has FINISHED)
+//	5 if <anything else> { continue }                   (drop by another test, e.g. the closed flag)
+//	6 svr.svcs[n] = s (with n++)                        7 if s.sess != nil && s.sess.ID() == cid { same = append(same, s) }
+//	8 svr.svcs = svr.svcs[:n]
+//	inside `for _, s := range same`:   9 s.stop()   10 <-s.stopped
 func factsTakeoverDisconnect(repo string, o *out) {
 	fsv := parse(repo, "service/server.go")
 	fn := findFunc(fsv, "Server", "disconnectClient")
